@@ -610,4 +610,48 @@ theorem index_negative_rejected (T : TcFacts) (hT : T.indexNegChecked = true) (i
   · rcases hv with hv | hv <;> simp [hi, hv, hT, hneg, Res.bind, bind]
   · simp [hi, Res.bind, bind]
 
+/-! ### array and slice literals: the index discipline of `arrayLitExpr` -/
+
+/-- for every literal of an array type of length ≥ 1 (`bound = some length`) or of a slice type (`bound = none`,
+    `typ.length = 0`), whatever the mix of keyed and positional elements, `arrayLitExpr` accepts exactly the index
+    sequences the specification allows (running index = previous key + 1, every index below the length, no
+    duplicate). The position `i` of the element in the literal plays no role (it does under the seeded change of
+    seeded/C12-3, fact `.loopPosition`: `arraylit_loop_position_accepts`). -/
+theorem arrayLit_agree (T : TcFacts) (hm : T.arrayLitBound = .runningIndex) (hn : T.indexNegChecked = true)
+    (isArray : Bool) (length : Nat) (hl : isArray = true → length ≥ 1) (hs : isArray = false → length = 0) :
+    ∀ (es : List LitElem) (i index : Nat) (vis : List Nat),
+      arrayLitY T isArray length es i index vis =
+        arrayLitG (if isArray then some length else none) es index vis
+  | [], i, index, vis => by simp [arrayLitY, arrayLitG]
+  | .keyed k :: rest, i, index, vis => by
+    unfold arrayLitY arrayLitG
+    by_cases hk : k < 0
+    · simp [hk, hn]
+    · simp only [hk, ↓reduceIte]
+      cases isArray with
+      | true =>
+        have h1 := hl rfl
+        have ih := arrayLit_agree T hm hn true length hl hs rest (i + 1) (k.toNat + 1) (k.toNat :: vis)
+        simp only [↓reduceIte] at ih
+        have : (decide (length ≥ 1) && decide (k.toNat ≥ length)) = decide (k.toNat ≥ length) := by simp; omega
+        simp only [this, ↓reduceIte, ih]
+      | false =>
+        have h0 := hs rfl
+        subst h0
+        have ih := arrayLit_agree T hm hn false 0 hl hs rest (i + 1) (k.toNat + 1) (k.toNat :: vis)
+        simp only [Bool.false_eq_true, ↓reduceIte] at ih
+        simp [ih]
+  | .pos :: rest, i, index, vis => by
+    unfold arrayLitY arrayLitG
+    rw [hm]
+    cases isArray with
+    | true =>
+      have ih := arrayLit_agree T hm hn true length hl hs rest (i + 1) (index + 1) (index :: vis)
+      simp only [↓reduceIte] at ih
+      simp [ih]
+    | false =>
+      have ih := arrayLit_agree T hm hn false length hl hs rest (i + 1) (index + 1) (index :: vis)
+      simp only [Bool.false_eq_true, ↓reduceIte] at ih
+      simp [ih]
+
 end YaegiVerif.Typecheck
